@@ -70,6 +70,51 @@ def _check_own(run):
     if not bad:
         run.ok("NPAPI", cls.module.name, f"{len(refs)} numpy references resolve in NumPy {npapi.numpy_version()}: "
                + ", ".join(sorted({d for _, _, d in refs})))
+    # ---- readers leave the window alone ----------------------------------------------------------------
+    # every method / property other than the constructor and update only reads the ring buffer: an in-place operation
+    # on it (also through a local name that may denote it, or a helper's result that may be it) rearranges or rescales
+    # the stored values behind the back of the write position
+    import ast as _ast
+    from ..paths import root as _root
+    n_readers = 0
+    writers, todo_w = {"__init__", "update", "__setstate__", "__post_init__"}, ["__init__", "update", "__setstate__", "__post_init__"]
+    while todo_w:           # helpers that update / the constructor call are part of the write side
+        _, wfn = prog.find_method(cls, todo_w.pop())
+        if wfn is None:
+            continue
+        for c_ in _ast.walk(wfn):
+            if isinstance(c_, _ast.Call) and isinstance(c_.func, _ast.Attribute) and isinstance(c_.func.value, _ast.Name) and \
+                    wfn.args.args and c_.func.value.id == wfn.args.args[0].arg and c_.func.attr not in writers:
+                writers.add(c_.func.attr)
+                todo_w.append(c_.func.attr)
+    for k in prog.mro(cls):
+        for mname, fn in k.methods.items():
+            if mname in writers or mname.endswith((".setter", ".deleter")) or mname.startswith("__") and mname not in ("__call__",):
+                continue
+            try:
+                ms = prog.summarise(cls, mname)
+            except ir.Unsupported:
+                continue
+            n_readers += 1
+            for ev, ctx in walk(ms.events):
+                tgt = ev.recv if isinstance(ev, ir.Mut) else (ev.cont if isinstance(ev, (ir.SubStore, ir.Del)) else None)
+                if tgt is None:
+                    continue
+                leaves, todo = [], [tgt]
+                while todo:
+                    t_ = todo.pop()
+                    if t_[0] == "gate":
+                        todo += [t_[2], t_[3]]
+                    elif t_[0] == "sub" and t_[2][0] != "slice":
+                        pass        # x[mask] / x[indices] / x[i]: a copy or a scalar, not the buffer
+                    else:
+                        leaves.append(_root(t_))
+                if any(l[0] == "field0" for l in leaves):
+                    run.fail("RING", f"{mname}.read-only", f"{ms.path}:{ev.line}", f"{CLS}.{mname}", run.stmt_text(ms.path, ev.line),
+                             f"{CLS}.{mname} changes {ir.show_nl(tgt)[:80]} in place: reading a statistic must leave the window "
+                             f"as update() left it (the slots are indexed by arrival position)")
+    if not any(f.instance.endswith(".read-only") for f in run.findings):
+        run.ok("RING", "readers.read-only", f"{n_readers} methods / properties besides update only read the window")
     # ---- constructor -----------------------------------------------------------------------------
     init = prog.summarise(cls, "__init__")
     run.analysed_fn(f"{CLS}.__init__")
